@@ -671,7 +671,7 @@ def select__subsequence(self: XPathFunction, context: ta.ContextType = None) \
     if self.context is not None:
         context = self.context
 
-    starting_loc = self.get_argument(context, 1, cls=NumericProxy)
+    starting_loc = self.get_argument(context, 1, required=True, cls=NumericProxy)
     if not math.isnan(starting_loc) and not math.isinf(starting_loc):
         starting_loc = float(round_number(starting_loc))
 
@@ -680,7 +680,7 @@ def select__subsequence(self: XPathFunction, context: ta.ContextType = None) \
             if starting_loc <= pos:
                 yield result
     else:
-        length = self.get_argument(context, 2, cls=NumericProxy)
+        length = self.get_argument(context, 2, required=True, cls=NumericProxy)
         if not math.isnan(length) and not math.isinf(length):
             length = float(round_number(length))
 
